@@ -127,7 +127,8 @@ fn run_c03_corpus(stats: &mut Stats) {
                     bad = Some(format!("rejected: {}", e.display));
                     break;
                 }
-                let lines: Vec<String> = p.events.iter().map(|x| x.0.line_nodoc()).collect();
+                // anchor ids renumbered by first occurrence: the suite names anchors, it does not number them
+                let lines: Vec<String> = crate::events::canon_lines(&p.events.iter().map(|x| x.0.clone()).collect::<Vec<_>>());
                 if let Some(i) = lines_first_diff(&expected, &lines) {
                     bad = Some(format!(
                         "event #{i}: suite expects `{}`, parser delivered `{}`",
